@@ -128,11 +128,14 @@ var sketchUnit = transUnit{Dir: "ddsketch", File: "CodeSketch", NS: "DDS.Gen.Ske
 	Ifaces: map[string]ifaceSpec{
 		"mapping.IndexMapping": {TyVar: "M", Class: "MapI", Mutating: map[string]bool{}, MutParams: map[string][]int{"Encode": {0}}},
 		"store.Store": {TyVar: "S", Class: "StoreI", Mutating: map[string]bool{"Add": true, "AddWithCount": true, "Clear": true,
-			"MergeWith": true, "Reweight": true, "Encode": true}, MutParams: map[string][]int{"Encode": {0}}},
+			"MergeWith": true, "Reweight": true, "Encode": true, "DecodeAndMergeWith": true},
+			MutParams: map[string][]int{"Encode": {0}, "DecodeAndMergeWith": {0}}},
 	},
 	ExternTypes: map[string]string{"stat.SummaryStatistics": "DDS.Gen.Stat.SummaryStatistics",
-		"encoding.Flag": "DDS.Gen.Encoding.Flag", "encoding.FlagType": "DDS.Gen.Encoding.FlagType"},
+		"encoding.Flag": "DDS.Gen.Encoding.Flag", "encoding.FlagType": "DDS.Gen.Encoding.FlagType",
+		"encoding.SubFlag": "DDS.Gen.Encoding.SubFlag"},
 	ExternVars: map[string]string{
+		"encoding.FlagTypeIndexMapping":  "DDS.Gen.Encoding.FlagTypeIndexMapping",
 		"encoding.FlagZeroCountVarFloat": "DDS.Gen.Encoding.FlagZeroCountVarFloat",
 		"encoding.FlagTypePositiveStore": "DDS.Gen.Encoding.FlagTypePositiveStore",
 		"encoding.FlagTypeNegativeStore": "DDS.Gen.Encoding.FlagTypeNegativeStore",
@@ -144,6 +147,11 @@ var sketchUnit = transUnit{Dir: "ddsketch", File: "CodeSketch", NS: "DDS.Gen.Ske
 		"encoding.EncodeFlag":       {Lean: "DDS.Gen.Encoding.EncodeFlag", MutParams: []int{0}},
 		"encoding.EncodeVarfloat64": {Lean: "DDS.Gen.Encoding.EncodeVarfloat64", Res: true, MutParams: []int{0}},
 		"encoding.EncodeFloat64LE":  {Lean: "DDS.Gen.Encoding.EncodeFloat64LE", Res: true, MutParams: []int{0}},
+		"encoding.DecodeFlag":       {Lean: "DDS.Gen.Encoding.DecodeFlag", Res: true, MutParams: []int{0}},
+		"encoding.DecodeVarfloat64": {Lean: "DDS.Gen.Encoding.DecodeVarfloat64", Res: true, MutParams: []int{0}},
+		"encoding.Flag.Type":        {Lean: "DDS.Gen.Encoding.Flag.Type"},
+		"encoding.Flag.SubFlag":     {Lean: "DDS.Gen.Encoding.Flag.SubFlag"},
+		"mapping.Decode":            {Lean: "MapI.Decode (M := M)", MutParams: []int{0}},
 		"stat.NewSummaryStatistics":          {Lean: "DDS.Gen.Stat.NewSummaryStatistics"},
 		"stat.SummaryStatistics.Count":       {Lean: "DDS.Gen.Stat.SummaryStatistics.Count"},
 		"stat.SummaryStatistics.Sum":         {Lean: "DDS.Gen.Stat.SummaryStatistics.Sum"},
@@ -158,7 +166,7 @@ var sketchUnit = transUnit{Dir: "ddsketch", File: "CodeSketch", NS: "DDS.Gen.Ske
 		"stat.SummaryStatistics.AddToCount":  {Lean: "DDS.Gen.Stat.SummaryStatistics.AddToCount", Mutating: true},
 		"stat.SummaryStatistics.AddToSum":    {Lean: "DDS.Gen.Stat.SummaryStatistics.AddToSum", Mutating: true},
 	},
-	Vars: []string{"ErrUntrackableNaN", "ErrUntrackableTooLow", "ErrUntrackableTooHigh", "ErrNegativeCount", "errEmptySketch"},
+	Vars: []string{"ErrUntrackableNaN", "ErrUntrackableTooLow", "ErrUntrackableTooHigh", "ErrNegativeCount", "errEmptySketch", "errUnknownFlag"},
 	Funcs: []string{
 		"NewDDSketch", "DDSketch.AddWithCount", "DDSketch.Add", "DDSketch.Copy", "DDSketch.Clear",
 		"DDSketch.GetCount", "DDSketch.GetZeroCount", "DDSketch.IsEmpty", "DDSketch.GetValueAtQuantile",
@@ -173,6 +181,7 @@ var sketchUnit = transUnit{Dir: "ddsketch", File: "CodeSketch", NS: "DDS.Gen.Ske
 		"DDSketchWithExactSummaryStatistics.Reweight",
 		"DDSketch.GetValuesAtQuantiles", "DDSketchWithExactSummaryStatistics.GetValuesAtQuantiles",
 		"DDSketch.Encode", "DDSketchWithExactSummaryStatistics.Encode",
+		"DDSketch.decodeAndMergeWith", "DDSketch.DecodeAndMergeWith",
 	}}
 
 var datasetUnit = transUnit{Dir: "dataset", File: "CodeDataset", NS: "DDS.Gen.Dataset", Mode: "f64",
@@ -300,6 +309,7 @@ type funcInfo struct {
 	mutated []int      // indexes into allParams() that are written through
 	mutSet  map[*types.Var]bool
 	extern  bool // an interface method or a function of another translated package
+	noFuel  bool // a function value held in a parameter: already applied to the caller's fuel
 	ord     bool // ranges over a map (directly or through a callee): takes the iteration-order oracle `ord`
 }
 
@@ -331,6 +341,8 @@ type tr struct {
 	nLoop   int
 	nTmp    int
 	knownTrue map[types.Object]bool // `ok` of a type assertion on a specialised parameter
+	lits      map[*ast.FuncLit]*funcInfo // function literals passed as arguments, lifted to top-level definitions
+	litsOf    map[string][]string        // enclosing function -> keys of its lifted literals
 }
 
 func (t *tr) fail(n ast.Node, format string, a ...interface{}) {
@@ -395,6 +407,23 @@ func (t *tr) leanType(ty types.Type) string {
 		return "List (" + t.leanType(u.Elem()) + ")"
 	case *types.Array:
 		return "List (" + t.leanType(u.Elem()) + ")"
+	case *types.Signature:
+		// a function value: pointer parameters are passed by value and returned first; always fallible
+		var ps, rs []string
+		for i := 0; i < u.Params().Len(); i++ {
+			pt := u.Params().At(i).Type()
+			ps = append(ps, t.leanType(pt))
+			if _, ok := pt.(*types.Pointer); ok {
+				rs = append(rs, t.leanType(pt))
+			}
+		}
+		for i := 0; i < u.Results().Len(); i++ {
+			rs = append(rs, t.leanType(u.Results().At(i).Type()))
+		}
+		if len(rs) == 0 {
+			rs = []string{"Unit"}
+		}
+		return "(" + strings.Join(ps, " → ") + " → Res (" + strings.Join(rs, " × ") + "))"
 	case *types.Map:
 		if !isInt(u.Key()) {
 			t.fail(nil, "map with a non-int key")
@@ -809,6 +838,15 @@ func (t *tr) expr(e ast.Expr, c *ectx) string {
 		return t.call(x, c)
 	case *ast.CompositeLit:
 		return t.composite(x, c)
+	case *ast.FuncLit:
+		fi := t.lits[x]
+		if fi == nil {
+			t.fail(e, "function literal in an unsupported position")
+		}
+		if t.unit.TypeArgs != "" {
+			return "(" + fi.lean + " " + t.unit.TypeArgs + " fuel)"
+		}
+		return "(" + fi.lean + " fuel)"
 	case *ast.IndexExpr:
 		if mt, ok := t.typeOf(x.X).Underlying().(*types.Map); ok {
 			// a map read never panics: the zero value for a missing key
@@ -862,6 +900,22 @@ func (t *tr) binary(x *ast.BinaryExpr, c *ectx) string {
 			return "(" + a + " && " + b + ")"
 		}
 		return "(" + a + " || " + b + ")"
+	}
+	if x.Op == token.EQL || x.Op == token.NEQ {
+		// `m == nil` for an interface value of a declared class
+		for _, pair := range [][2]ast.Expr{{x.X, x.Y}, {x.Y, x.X}} {
+			if id, ok := pair[1].(*ast.Ident); ok && id.Name == "nil" {
+				if nm, ok := t.typeOf(pair[0]).(*types.Named); ok && nm.Obj().Pkg() != nil {
+					if is, ok := t.unit.Ifaces[nm.Obj().Pkg().Name()+"."+nm.Obj().Name()]; ok {
+						v := "(" + is.Class + ".isNil " + t.expr(pair[0], c) + ")"
+						if x.Op == token.NEQ {
+							return "(!" + v + ")"
+						}
+						return v
+					}
+				}
+			}
+		}
 	}
 	a := t.expr(x.X, c)
 	b := t.expr(x.Y, c)
@@ -1420,7 +1474,7 @@ func (t *tr) registerExterns() {
 
 func (t *tr) apply(fi *funcInfo, args []string) string {
 	s := fi.lean
-	if fi.res {
+	if fi.res && !fi.noFuel {
 		s += " fuel"
 	}
 	if fi.ord {
@@ -3167,6 +3221,70 @@ func translateUnit(repo string, u transUnit) (text string, errMsg string) {
 		t.funcs[key] = fi
 		t.byObj[obj] = fi
 	}
+	// function literals passed as call arguments inside the translated functions: lifted to definitions of
+	// their own (no captured variables); function-typed parameters: callable values
+	t.lits = map[*ast.FuncLit]*funcInfo{}
+	t.litsOf = map[string][]string{}
+	for _, key := range u.Funcs {
+		fi := t.funcs[key]
+		n := 0
+		ast.Inspect(fi.decl.Body, func(m ast.Node) bool {
+			call, ok := m.(*ast.CallExpr)
+			if !ok {
+				return true
+			}
+			for _, a := range call.Args {
+				lit, ok := a.(*ast.FuncLit)
+				if !ok {
+					continue
+				}
+				if id, ok := call.Fun.(*ast.SelectorExpr); ok {
+					if pk, ok := id.X.(*ast.Ident); ok {
+						if pn, ok := t.info.Uses[pk].(*types.PkgName); ok && pn.Imported().Path() == "sort" {
+							continue // sort.Slice comparison: handled by pattern
+						}
+					}
+				}
+				// a literal that captures variables is not lifted (translating a call that passes it then fails)
+				captures := false
+				ast.Inspect(lit.Body, func(q ast.Node) bool {
+					if id, ok := q.(*ast.Ident); ok {
+						if v, ok := t.info.Uses[id].(*types.Var); ok && !v.IsField() && v.Pkg() == t.pkg &&
+							v.Parent() != t.pkg.Scope() && !(v.Pos() >= lit.Pos() && v.Pos() < lit.End()) {
+							captures = true
+						}
+					}
+					return !captures
+				})
+				if captures {
+					continue
+				}
+				n++
+				lk := fmt.Sprintf("%s.lit%d", key, n)
+				sig := t.info.Types[lit].Type.(*types.Signature)
+				lfi := &funcInfo{key: lk, lean: lk, decl: &ast.FuncDecl{Name: ast.NewIdent(lk), Type: lit.Type, Body: lit.Body},
+					sig: sig, mutSet: map[*types.Var]bool{}, res: true}
+				t.funcs[lk] = lfi
+				t.lits[lit] = lfi
+				t.litsOf[key] = append(t.litsOf[key], lk)
+			}
+			return true
+		})
+		// function-typed parameters
+		for i := 0; i < fi.sig.Params().Len(); i++ {
+			pv := fi.sig.Params().At(i)
+			if psig, ok := pv.Type().(*types.Signature); ok {
+				pfi := &funcInfo{key: pv.Name(), lean: lname(pv.Name()), sig: psig, mutSet: map[*types.Var]bool{}, res: true, noFuel: true, extern: true}
+				for j := 0; j < psig.Params().Len(); j++ {
+					if _, ok := psig.Params().At(j).Type().(*types.Pointer); ok {
+						pfi.mutSet[psig.Params().At(j)] = true
+						pfi.mutated = append(pfi.mutated, j)
+					}
+				}
+				t.byObj[pv] = pfi
+			}
+		}
+	}
 	// package variables: declared first so that functions can refer to them; those initialised by a
 	// fallible function are Res values
 	type pv struct {
@@ -3201,6 +3319,16 @@ func translateUnit(repo string, u transUnit) (text string, errMsg string) {
 	}
 	t.registerExterns()
 	t.analyseMutation()
+	for _, lfi := range t.lits {
+		// a literal has the calling convention of its function type: every pointer parameter is returned
+		lfi.mutated = nil
+		for j := 0; j < lfi.sig.Params().Len(); j++ {
+			if _, ok := lfi.sig.Params().At(j).Type().(*types.Pointer); ok {
+				lfi.mutSet[lfi.sig.Params().At(j)] = true
+				lfi.mutated = append(lfi.mutated, j)
+			}
+		}
+	}
 	t.analyseOrd()
 	// fallibility: a variable initialised by a call to a fallible function is fallible; iterate
 	for i := 0; i < 4; i++ {
@@ -3301,6 +3429,9 @@ func translateUnit(repo string, u transUnit) (text string, errMsg string) {
 			if f != key && t.funcs[f] != nil {
 				emitFn(f)
 			}
+		}
+		for _, lk := range t.litsOf[key] {
+			emitFn(lk)
 		}
 		t.emitFunc(fi)
 	}
